@@ -23,8 +23,9 @@ def _enum():
 
 ENUM = _enum()
 CASES = {'quick': len(ENUM) + 5000, 'thorough': len(ENUM) * 4 + 60000}
+SMALL_BLOCKS = 4      # runner: every 4th case keeps its stores in 2..10-token blocks
 GATES = {
-    'quick': {'evaluations': 8500, 'built': 5000, 'enumerated_subsets': len(ENUM), 'classes_from_value': 28, 'classes_from_children': 34,
+    'quick': {'cases_in_small_blocks': 50, 'evaluations': 8500, 'built': 5000, 'enumerated_subsets': len(ENUM), 'classes_from_value': 28, 'classes_from_children': 34,
               'in_file_checks': 1500, 'value_readbacks': 12000, 'custom_values_needing_disambiguation': 8, 'custom_signed_after_number': 8},
     'thorough': {'evaluations': 90000, 'classes_from_value': 28, 'classes_from_children': 34},
 }
